@@ -1,32 +1,29 @@
 #!/bin/bash
-# tools/seed_eval.sh <ID> <src_demo_dir> [extra property ids to run...]
+# tools/seed_eval.sh <ID> <src_demo_dir> [property ids to run...]
 # 1. stores the seeded change under /verif/seeded/<ID>/ ; 2. confirms it on a fresh scratch worktree of /repo HEAD
-# (suite passes, demo fails with / passes without the change) ; 3. applies it to /repo, runs the checks, undoes it.
+# (suite passes, demo fails with / passes without the change) ; 3. runs the checks against that worktree (VF_REPO),
+# never touching /repo itself; evidence / replays of those runs go to a scratch directory.
 set -u
 ID=$1; SRC=$2; shift 2
 PROPS="${@:-}"
 DST=/verif/seeded/$ID
 mkdir -p $DST
-cp $SRC/patch.diff $DST/patch.diff; cp $SRC/demo.py $DST/demo.py; cp $SRC/meta.json $DST/meta.json 2>/dev/null
+[ "$SRC" != "$DST" ] && { cp $SRC/patch.diff $DST/patch.diff; cp $SRC/demo.py $DST/demo.py; cp $SRC/meta.json $DST/meta.json 2>/dev/null; }
 WT=/tmp/confirm_$ID
 git -C /repo worktree remove --force $WT >/dev/null 2>&1
 git -C /repo worktree add -q --detach $WT HEAD || exit 2
 OUT=$DST/confirm.log; : > $OUT
+echo "repo HEAD: $(git -C /repo rev-parse --short HEAD)" >> $OUT
 if ! git -C $WT apply $DST/patch.diff 2>>$OUT; then echo "PATCH DOES NOT APPLY to current HEAD" | tee -a $OUT; git -C /repo worktree remove --force $WT; exit 2; fi
 ( cd $WT && PYTHONPATH=$WT /venv/bin/python -m pytest -q -p no:cacheprovider -n 6 tests 2>&1 | tail -1 ) | sed 's/\x1b\[[0-9;]*m//g' | tee -a $OUT
 sed "s#/tmp/wt_[A-Za-z0-9]*#$WT#g" $DST/demo.py > $WT/_demo_run.py
-( cd $WT && PYTHONPATH=$WT timeout 600 /venv/bin/python _demo_run.py > $DST/demo_with.out 2>&1; echo "demo WITH change: exit $?" ) | tee -a $OUT
 git -C $WT apply -R $DST/patch.diff
-( cd $WT && PYTHONPATH=$WT timeout 600 /venv/bin/python _demo_run.py > $DST/demo_without.out 2>&1; echo "demo WITHOUT change: exit $?" ) | tee -a $OUT
+( cd $WT && PYTHONPATH=$WT timeout 900 /venv/bin/python _demo_run.py > $DST/demo_without.out 2>&1; echo "demo WITHOUT change: exit $?" ) | tee -a $OUT
+git -C $WT apply $DST/patch.diff
+( cd $WT && PYTHONPATH=$WT timeout 900 /venv/bin/python _demo_run.py > $DST/demo_with.out 2>&1; echo "demo WITH change: exit $?" ) | tee -a $OUT
+for P in $PROPS; do
+  ( cd /verif && VF_REPO=$WT VF_OUT=/tmp/seed_out_$ID timeout 3000 ./check $P --tier quick > $DST/check_$P.out 2>&1; echo "check $P against the change: exit $? ; VIOLATION lines: $(grep -c '^VIOLATION' $DST/check_$P.out)" ) | tee -a $OUT
+  grep -A2 "^VIOLATION" $DST/check_$P.out | grep -v "^--" | head -4 | cut -c1-240
+done
 git -C /repo worktree remove --force $WT
-# run the checks against it
-if [ -n "$PROPS" ]; then
-  if [ -n "$(git -C /repo status --porcelain)" ]; then echo "/repo not clean"; exit 2; fi
-  git -C /repo apply $DST/patch.diff || exit 2
-  for P in $PROPS; do
-    ( cd /verif && timeout 3000 ./check $P --tier quick > $DST/check_$P.out 2>&1; echo "check $P: exit $? ; violations: $(grep -c '^VIOLATION' $DST/check_$P.out)" ) | tee -a $OUT
-    grep -A2 "^VIOLATION" $DST/check_$P.out | head -6 | cut -c1-260
-  done
-  git -C /repo checkout -- . ; git -C /repo status --porcelain | head -3
-  ( cd /verif && git checkout -- evidence 2>/dev/null )
-fi
+rm -rf /tmp/seed_out_$ID
